@@ -303,6 +303,12 @@ func (s *Sched) closeAll() {
 //go:norace
 func (s *Sched) Mutual() int { return s.mutual }
 
+// Deadlocks returns how often all unfinished tasks were parked (Mutual
+// included).
+//
+//go:norace
+func (s *Sched) Deadlocks() int { return s.deadlock }
+
 // Switches returns the number of task switches so far.
 //
 //go:norace
